@@ -236,7 +236,7 @@ theorem suggestBody_ok (cfg : Cfg) (st : Study) (client : String) (count : Nat) 
           have hreq : t.state = .requested := by simpa using htm.2
           refine ⟨t, htm.1, rfl, ?_⟩
           rw [trialStepOK_iff]
-          exact ⟨by simp [hreq, legal], rfl, fun hc => by simp [hreq, TState.completed] at hc⟩
+          exact ⟨by simp [hreq, legal], rfl, fun hc => by simp [hreq, TState.completed] at hc, fun hne => absurd hreq hne⟩
         · exact MapOK.refl _
       split
       · simpa using hA.trialsOK hn
